@@ -85,6 +85,9 @@ class PureCheck:
         self._drift_samples = []
         for idx, v in sorted(verdicts.items()):
             ev = events[idx]
+            if v[0] == "fail" and "Machinery" in v[1]:
+                raise Machinery(f"the specification's own reference disagrees with the environment fact logged for "
+                                f"{self.describe(ev, v)[:500]} ({v[1]})")
             if v[0] == "fail":
                 rep.fail(self.signature(ev, v), f"{v[1]} fails: {self.describe(ev, v)}",
                          {"input": inputs[idx], "event": ev, "verdict": v})
